@@ -97,10 +97,11 @@ where
         let state = self.stack.last().unwrap().state;
 
         let span = if states == 0 {
-            // EMPTY reduction
+            // EMPTY reduction: zero-width span at the end of the preceding
+            // token (the same position the GLR parser uses).
             SourceSpan {
-                start: context.span().start,
-                end: context.span().start,
+                start: context.span().end,
+                end: context.span().end,
             }
         } else {
             SourceSpan {
